@@ -464,11 +464,8 @@ func C08(c *core.Ctx) {
 		}
 		n := 0
 		core.Instrs(fn, func(in ssa.Instruction) {
-			_, v, ok := storeToField(in, "RibEntry", "routes")
+			_, _, ok := storeToField(in, "RibEntry", "routes")
 			if !ok {
-				return
-			}
-			if _, isSl := core.Strip(v).(*ssa.Slice); !isSl {
 				return
 			}
 			n++
